@@ -718,6 +718,55 @@ def run_model_ties(chk, binary, rng, quick):
     return nm
 
 
+FMT_DERIVES = [("Display", "display"), ("Debug", "debug"), ("Binary", "binary"), ("Octal", "octal"), ("LowerHex", "lower_hex"),
+               ("UpperHex", "upper_hex"), ("LowerExp", "lower_exp"), ("UpperExp", "upper_exp"), ("Pointer", "pointer")]
+
+
+def boundary_code_points():
+    """~230 code points on both sides of the boundaries between XID_Start / XID_Continue and the std classes
+    is_alphabetic / is_alphanumeric: superscripts, fractions, enclosed letters, letter numbers, combining marks,
+    variation selectors, modifier letters, connector punctuation, digits of other scripts"""
+    import unicodedata
+    fixed = ("\u00b2\u00b3\u00b9\u00bd\u00bc\u00be\u24d0\u24b6\u2460\u093e\u093c\u093f\ufe00\ufe01\u203f\u2040\u00b7\u2118\u212e"
+             "\u309b\u309c\u3021\u2167\u2170\u2082\u00aa\u00ba\u02b0\u02c6\u0308\u0488\u0489\u3099\u1885\u1886\u214e\u2180\u249c"
+             "\U0001f130\U0001d7d8\u07c0\u0660\u0966\u0e33\u0387\u1369\u19da\u2070\u2189\u3007\u16ee\ua6e6\U00010140\u0345\u05bf"
+             "\u200c\u200d\u00ad\u2054\ufe33\uff3f\u30fb\uff65\u0f0b\u2e2f\ua67f\u1da0\u2071\u207f\u2c7c\ua69c\uab5c\u0e4e\u1bab")
+    out = list(fixed)
+    per = {}
+    for cp in range(0xa0, 0x20000, 7):
+        ch = chr(cp)
+        cat = unicodedata.category(ch)
+        if cat in ("No", "Nl", "Mn", "Mc", "Me", "Lm", "Nd", "So", "Sk", "Pc", "Cf", "Lo", "Lt") and per.get(cat, 0) < 12:
+            per[cat] = per.get(cat, 0) + 1
+            out.append(ch)
+    return [c for c in dict.fromkeys(out) if c not in LINE_BREAKS]
+
+
+def placeholder_name_cases():
+    """single bare placeholder, no arguments: FmtAttribute::transparent_call turns the name into an identifier
+    (format_ident!); names built around the boundary code points, without and with a trait letter / modifiers, for the
+    nine fmt derives at struct and variant level and for Debug at field level"""
+    out = []
+    k = 0
+    for c in boundary_code_points():
+        esc = "\\u{%x}" % ord(c)
+        for name in (esc, "x" + esc, esc + "x", "_" + esc, "x" + esc + "1"):
+            for lit in ("{%s}", "{%s:?}", "{%s:x}", "{%s:>5}"):
+                body = '"' + (lit % name) + '"'
+                trait, attr = FMT_DERIVES[k % len(FMT_DERIVES)]
+                where = k % 4
+                k += 1
+                if where == 0:
+                    out.append((trait, "#[%s(%s)] struct Squared { x: u8 }" % (attr, body)))
+                elif where == 1:
+                    out.append((trait, "#[%s(%s)] struct Circled;" % (attr, body)))
+                elif where == 2:
+                    out.append((trait, "enum E { #[%s(%s)] A { x: u8 }, #[%s(\"b\")] B }" % (attr, body, attr)))
+                else:
+                    out.append(("Debug", "struct F { #[debug(%s)] x: u8, y: u8 }" % body))
+    return out
+
+
 # attribute bodies a derive accepts on a field (or, for the enum derives, on a variant): "" is the bare `#[attr]`
 MEMBER_ATTR_KINDS = {
     "as_ref": ["skip", "ignore", "", "forward", "i32", "str, [u8]"], "as_mut": ["skip", "ignore", "", "forward", "i32"],
@@ -799,7 +848,8 @@ LEMMA_FOCUS = {
     "as_validation_is_present": ["AsRef", "AsMut"], "asef_guard_present": ["Deref", "DerefMut", "Index", "IndexMut", "IntoIterator", "FromStr"],
     "vt_single_guard_present": ["From", "Into"], "il_guard_present": ["Into"], "from_str_guard_present": ["FromStr"],
     "display_shared_attr_unwrap_safe": ["Display", "Binary", "Octal", "LowerHex", "UpperHex", "LowerExp", "UpperExp", "Pointer"],
-    "placeholder_counter_safe": ["Display", "Debug"], "balanced_pair_count_safe": ["Display", "Debug"],
+    "placeholder_counter_safe": ["Display", "Debug"], "ident_preds_are_xid_present": ["Display", "Debug", "Binary", "Pointer"],
+    "transparent_ident_valid": ["Display", "Debug", "Binary", "Pointer"], "balanced_pair_count_safe": ["Display", "Debug"],
     "assert_single_enabled_field_safe": ["Deref", "DerefMut", "Index", "IndexMut", "IntoIterator", "FromStr"],
     "len1_index0_safe": ["FromStr"], "fmt_trait_names_total": ["Display", "Debug"],
     # Part C: obligations over extracted expressions / guards and the new models
@@ -1140,13 +1190,16 @@ def run(tier, seed, replay):
                                    for lo in range(0, 0x110000, 0x8000)], timeout=120)
     bad_start = [c for r in ip for c in r.get("bad_start", [])]
     bad_cont = [c for r in ip for c in r.get("bad_cont", [])]
-    chk.assumptions.append("A-IDENT: every XID_Start / XID_Continue scalar of unicode-xid (the literal parser's tables) is "
-                           "accepted by proc_macro2::Ident::new (fmt/mod.rs:187 format_ident!(\"{name}\")); measured this run "
-                           "over all 0x110000 code points: %d + %d rejected" % (len(bad_start), len(bad_cont)))
-    for c in (bad_start + bad_cont)[:3]:
-        chk.violation("fmt/mod.rs|transparent_call|format_ident|ident-table", {"derive": "Display", "item":
-                      "#[display(\"{%s%s}\")] struct A;" % ("" if c in bad_start else "a", chr(c))},
-                      "identifier char U+%04X accepted by the literal parser but rejected by Ident::new" % c)
+    chk.assumptions.append("A-IDENT: every scalar the real literal parser (fmt/parsing.rs identifier, driven through `format`) "
+                           "accepts at the start / inside of a placeholder name is accepted by proc_macro2::Ident::new "
+                           "(fmt/mod.rs:187 format_ident!(\"{name}\")); measured this run over all 0x110000 code points: "
+                           "%d + %d rejected" % (len(bad_start), len(bad_cont)))
+    # code points the real parser accepts in a name but Ident::new rejects: replayed through the derives below
+    ident_items = []
+    for c in (bad_start[:8] + bad_cont[:8]):
+        nm = ("\\u{%x}" % c) if c in bad_start else ("a\\u{%x}" % c)
+        for trait, attr in FMT_DERIVES[:3]:
+            ident_items.append((trait, "#[%s(\"{%s}\")] struct A;" % (attr, nm), "ident-table"))
 
     # ---- syn's enums vs the arms of contains_generics (the `_ => unimplemented!()` arms)
     syn_note = syn_variant_check(chk)
@@ -1193,6 +1246,8 @@ def run(tier, seed, replay):
         # (a) corpus
         run_batch([(d, it, "corpus") for d, it in CORPUS + member_order_pins(derives)])
         run_batch([(d, it, "member-order") for d, it in member_order_cases(rng, quick, derives)])
+        # placeholder names around the identifier-class boundaries (+ whatever the A-IDENT measurement found)
+        run_batch(ident_items + [(d, it, "placeholder-name") for d, it in placeholder_name_cases()])
         # (a') listed tuple types of every arity against 0..4 fields (From / Into, all levels and kinds)
         run_batch([(d, it, "arity") for d, it in arity_cases()])
         # (a'') numeric inputs at and around the limits of every integer type
